@@ -43,7 +43,7 @@ def trace_level():
     ctx.replaying = True
     # --- Workflow: replay a few behaviours, then corrupt one field
     bs = workflow.behaviours(ctx, 12, 4)
-    cases = [{"tid": i + 1, "info": b["info"], "present": b["present"], "glob": b["glob"], "hist": b["hist"], "label": "selftest"}
+    cases = [{"tid": i + 1, "info": b["info"], "present": b["present"], "glob": b["glob"], "sib": b.get("sib", []), "hist": b["hist"], "label": "selftest"}
              for i, b in enumerate(bs)]
     events = [e for c in cases for e in workflow.run_case(c)]
     expect("Workflow: recorded behaviours accepted", not rejected(ctx, "Trace_Workflow", "Trace_Workflow.cfg", events, group_key="tid"))
@@ -58,6 +58,17 @@ def trace_level():
     tgt["exit"] = 1 - tgt["exit"]
     r = rejected(ctx, "Trace_Workflow", "Trace_Workflow.cfg", ev3, group_key="tid")
     expect("Workflow: a flipped lint exit status is rejected", any(x["clause"].startswith("C01.") for x in r))
+    ev4 = copy.deepcopy(events)
+    tgt = next((e for e in ev4 if e["cmd"]["kind"] == "lint-file"), None)
+    if tgt is not None:
+        tgt["exit"] = 1 - tgt["exit"]
+        r = rejected(ctx, "Trace_Workflow", "Trace_Workflow.cfg", ev4, group_key="tid")
+        expect("Workflow: a flipped lint-file exit status is rejected", any(x["clause"].startswith("C13.") for x in r))
+    ev5 = copy.deepcopy(events)
+    tgt = next(e for e in ev5 if e["cmd"]["kind"] == "lint")
+    tgt["post"]["sib"] = sorted(set(tgt["post"]["sib"]) | {sorted(tgt["post"]["info"])[0]})[: None] if sorted(tgt["post"]["info"])[0] not in tgt["post"]["sib"] else []
+    r = rejected(ctx, "Trace_Workflow", "Trace_Workflow.cfg", ev5, group_key="tid")
+    expect("Workflow: a .license sibling that appears during lint is rejected", any(x["clause"].startswith("C15.") for x in r))
     # --- repository-test traces (C15 footprint, C16 exit discipline, C05 matches)
     sev = suitetrace.collect(ctx)
     c15 = suitetrace.for_c15(sev, 1)
